@@ -1730,6 +1730,60 @@ CLEANUP:
 }
 #endif
 
+/* 0 iff cstat/rstat describe a basis of a problem with nstruct columns and
+ * nrows rows: documented status characters only, exactly nrows basic entries */
+static int check_basis_stats (
+	int nstruct,
+	int nrows,
+	const char *cstat,
+	const char *rstat)
+{
+	int i, nbas = 0;
+
+	if ((nstruct > 0 && cstat == 0) || (nrows > 0 && rstat == 0))
+	{
+		QSlog("basis without status arrays");
+		return 1;
+	}
+	for (i = 0; i < nstruct; i++)
+	{
+		switch (cstat[i])
+		{
+		case QS_COL_BSTAT_BASIC:
+			nbas++;
+			break;
+		case QS_COL_BSTAT_LOWER:
+		case QS_COL_BSTAT_UPPER:
+		case QS_COL_BSTAT_FREE:
+			break;
+		default:
+			QSlog("illegal column status %d at position %d of basis", cstat[i], i);
+			return 1;
+		}
+	}
+	for (i = 0; i < nrows; i++)
+	{
+		switch (rstat[i])
+		{
+		case QS_ROW_BSTAT_BASIC:
+			nbas++;
+			break;
+		case QS_ROW_BSTAT_LOWER:
+		case QS_ROW_BSTAT_UPPER:
+			break;
+		default:
+			QSlog("illegal row status %d at position %d of basis", rstat[i], i);
+			return 1;
+		}
+	}
+	if (nbas != nrows)
+	{
+		QSlog("basis has %d basic entries, the problem has %d rows", nbas, nrows);
+		return 1;
+	}
+	return 0;
+}
+
 EGLPNUM_TYPENAME_QSLIB_INTERFACE QSbasis *EGLPNUM_TYPENAME_QSread_basis (
 	EGLPNUM_TYPENAME_QSdata * p,
 	const char *filename)
@@ -1779,6 +1833,10 @@ EGLPNUM_TYPENAME_QSLIB_INTERFACE int EGLPNUM_TYPENAME_QSload_basis (
 		rval = 1;
 		goto CLEANUP;
 	}
+
+	/* validate before the current basis is thrown away */
+	rval = check_basis_stats (B->nstruct, B->nrows, B->cstat, B->rstat);
+	CHECKRVALG (rval, CLEANUP);
 
 	if (p->basis == 0)
 	{
@@ -1855,6 +1913,10 @@ EGLPNUM_TYPENAME_QSLIB_INTERFACE int EGLPNUM_TYPENAME_QSload_basis_array (
 		rval = 1;
 		goto CLEANUP;
 	}
+
+	/* validate before the current basis is thrown away */
+	rval = check_basis_stats (qslp->nstruct, qslp->nrows, cstat, rstat);
+	CHECKRVALG (rval, CLEANUP);
 
 	if (p->basis == 0)
 	{
